@@ -108,7 +108,7 @@ def judge(rep, n, length, seed, wd, tag, owns, jobs=8, stats=None):
     return st
 
 
-def phase(rep, tier, seed, wd, owns, quick_n=250, thorough_n=5000):
+def phase(rep, tier, seed, wd, owns, quick_n=250, thorough_n=15000):
     """the standard whole-program phase of a property's check"""
     q = tier == "quick"
     st = judge(rep, quick_n if q else thorough_n, 12, seed, wd, "pg", owns, jobs=8 if q else 14)
